@@ -66,6 +66,7 @@ def setup(rep, tier):
     rep.minimum('R12.6', 5)
     rep.minimum('R12.7', 10)
     rep.minimum('R12.8', 1)
+    rep.minimum('R12.9', 3)
 
 
 # ------------------------------------------------------------------ helpers
@@ -688,6 +689,12 @@ def _entry_stale(cf, fn, R, F, trans, fb):
     return stale
 
 
+def hf_record(prog, hf):
+    """the record the reset handler's first parameter points to"""
+    t = hf.params[0]['type'].replace('const', '').replace('*', '').strip()
+    return t
+
+
 def check_exception(prog, e, R, F, trans, hf, hcf, hblocks, stale_in):
     """re-check the machine-checkable part of a listed reason"""
     c = e.get('check', {'kind': 'none'})
@@ -715,7 +722,77 @@ def check_exception(prog, e, R, F, trans, hf, hcf, hblocks, stale_in):
                 left.append(fname)
         if left and not c.get('value_independent'):
             return False, 'with %s == %s the old value is still read in %s' % (c['field'], c['value'], left)
-        return True, 'checked: reset sets %s = %s and then no read of the old value is feasible%s' % (c['field'], c['value'], ' (or its result is masked)' if left else '')
+        # ... and the guard must not be lifted before the stale field has been rewritten: wherever the codec stores a
+        # read-enabling value into the guard field, a write of the stale field lies on every feasible path to that store
+        enabling = c.get('enabling')
+        if enabling is not None:
+            for g in prog.functions_all:
+                if not g.file.startswith('src/'):
+                    continue
+                gst = [n for n in g.all_nodes() if n[0] == 'assign' and sx.kind(sx.strip_paren(n[1])) == 'field' and sx.strip_paren(n[1])[3] == c['field'] and sx.strip_paren(n[1])[2] == hf_record(prog, hf)]
+                if not gst or g.name == hf.name or g.name.endswith('_init'):
+                    continue
+                gcf = cfgm.CFG(g)
+                writers = set()
+                for b, i, s_ in gcf.positions():
+                    for x in sx.walk(s_):
+                        if x[0] in ('assign', 'cassign') and sx.kind(sx.strip_paren(x[1] if x[0] == 'assign' else x[2])) == 'field':
+                            lv = sx.strip_paren(x[1] if x[0] == 'assign' else x[2])
+                            if lv[2] == R and lv[3] == F:
+                                writers.add(b)
+                        if x[0] == 'call' and (R, F) in trans.get(sx.callee_name(x) or '', ()):
+                            writers.add(b)
+                # the field may also be rewritten by every caller before it calls g (a per-call mirror computed by the caller)
+                callers_write = False
+                sites_total = 0
+                for h in prog.functions_all:
+                    if h is g or not h.file.startswith('src/'):
+                        continue
+                    hc = None
+                    for cs in h.calls():
+                        if sx.callee_name(cs) == g.name and prog.resolve_in(h, g.name) is g:
+                            if hc is None:
+                                hc = cfgm.CFG(h)
+                            sites = T.calls_to(hc, g.name)
+                            hst = [(b2, i2) for b2, i2, n2 in hc.find(lambda n2: n2[0] in ('assign', 'cassign') and sx.kind(sx.strip_paren(n2[1] if n2[0] == 'assign' else n2[2])) == 'field'
+                                                              and sx.strip_paren(n2[1] if n2[0] == 'assign' else n2[2])[2] == R and sx.strip_paren(n2[1] if n2[0] == 'assign' else n2[2])[3] == F)]
+                            sites_total += len(sites)
+                            sb_ = {b2 for b2, i2 in hst}
+                            callers_write = bool(sites) and bool(sb_) and all(any(hc.pos_dominates(sp, (b3, i3)) for sp in hst) or hc.must_pass_live(hc.entry, {b3}, sb_) for b3, i3, n3 in sites)
+                            break
+                if callers_write and sites_total:
+                    continue
+                for b, i, s_ in gcf.positions():
+                    for n in sx.walk(s_):
+                        if n not in gst:
+                            continue
+                        rhs = sx.strip(chain_assigns(n)[1])
+                        cv = sx.int_val(rhs)
+                        if cv is not None and cv not in enabling:
+                            continue
+                        vals = [{}]
+                        if sx.kind(rhs) == 'field':
+                            vals = [{sx.key(rhs): v} for v in enabling]
+                        for val in vals:
+                            blocks, edges = decide.feasible_edges(gcf, val)
+                            seen, work = {gcf.entry}, [gcf.entry]
+                            reach = False
+                            while work:
+                                x = work.pop()
+                                if x == b:
+                                    reach = True
+                                    break
+                                if x in writers:
+                                    continue
+                                for y in gcf.succ[x]:
+                                    if (x, y) in edges and y not in seen:
+                                        seen.add(y)
+                                        work.append(y)
+                            if reach and b not in writers:
+                                return False, '%s stores a read-enabling value into %s at line %s on a path that has not rewritten %s (%s): the guard is lifted while the value from before the reset is still there' % (
+                                    g.name, c['field'], sx.line(n), F, 'e.g. a frame that does not run the layer which writes it')
+        return True, 'checked: reset sets %s = %s and then no read of the old value is feasible%s%s' % (c['field'], c['value'], ' (or its result is masked)' if left else '',
+                                                                                                   '; the guard is lifted only after the field was rewritten' if enabling is not None else '')
     if c['kind'] == 'caller_writes':
         caller, callee = prog.fn(c['caller']), c['callee']
         cf = cfgm.CFG(caller)
@@ -947,7 +1024,82 @@ def r12_8(rep, prog):
         rep.unresolved('R12.8', 'only %d typed clears / copies found (several hundred expected)' % n)
 
 
+# ------------------------------------------------------------------ R12.9
+INTERNAL_CELT_REQ = {10002: 'CELT_SET_PREDICTION', 10010: 'CELT_SET_START_BAND', 10012: 'CELT_SET_END_BAND', 10008: 'CELT_SET_CHANNELS'}
+
+
+def r12_9(rep, prog):
+    """the Opus encoder drives its CELT encoder through internal requests whose values live in CELT's configuration
+    area, which no reset clears.  For each such request: either every CELT encode call of the frame encoder is preceded,
+    in the same call and for every feasible (mode, redundancy, celt_to_silk) valuation, by a fresh issue of the request -
+    then the value left from before a reset can never be used - or the OPUS_RESET_STATE handler re-issues it, as a new
+    encoder starts from CELT's init value."""
+    f = prog.fn('opus_encode_frame_native')
+    cf = cfgm.CFG(f)
+    rep.functions.add(f.name)
+    reqs = {}
+    for b, i, c in T.calls_to(cf, ('opus_custom_encoder_ctl', 'celt_encoder_ctl')):
+        reqs.setdefault(sx.int_val(c[2][1]), set()).add(b)
+    enc = [(b, i, c) for b, i, c in T.calls_to(cf, ('celt_encode_with_ec',))]
+
+    def k(nm):
+        i = f.param_index(nm)
+        if i is not None:
+            return ('param', i)
+        ids = [l['id'] for l in f.locals.values() if l['name'] == nm]
+        return ('local', ids[0]) if ids else None
+    keys = {'redundancy': k('redundancy'), 'celt_to_silk': k('celt_to_silk')}
+    if not enc or None in keys.values():
+        rep.unresolved('R12.9', '%s: CELT encode calls / redundancy flags of opus_encode_frame_native not found' % prog.config)
+        return 0
+    hf, hcf, hblocks = handler(prog, 'opus_encoder_ctl', 'OPUS_RESET_STATE')
+    reissued = set()
+    for b in hblocks:
+        for s_ in hcf.f.block_exprs(hcf.blocks[b]):
+            for x in sx.walk(s_):
+                if sx.kind(x) == 'call' and sx.callee_name(x) in ('opus_custom_encoder_ctl', 'celt_encoder_ctl') and len(x[2]) > 1:
+                    reissued.add(sx.int_val(x[2][1]))
+    n = 0
+    for r, nm in sorted(INTERNAL_CELT_REQ.items()):
+        if r not in reqs:
+            continue
+        n += 1
+        gaps = []
+        for mode in (1000, 1001, 1002):
+            for red in (0, 1):
+                for c2s in (0, 1):
+                    val = {('field', ('param', 0), 'mode'): mode, keys['redundancy']: red, keys['celt_to_silk']: c2s}
+                    blocks, edges = decide.feasible_edges(cf, val, entry=True)
+                    for b, i, c in enc:
+                        if b not in blocks or b in reqs[r]:
+                            continue
+                        seen, work, reach = {cf.entry}, [cf.entry], False
+                        while work:
+                            x = work.pop()
+                            if x == b:
+                                reach = True
+                                break
+                            if x in reqs[r]:
+                                continue
+                            for y in cf.succ[x]:
+                                if (x, y) in edges and y not in seen:
+                                    seen.add(y)
+                                    work.append(y)
+                        if reach:
+                            gaps.append((mode, red, c2s, sx.line(c)))
+        inst = '%s:the value of %s used by every CELT encode call is the same after a reset as on a new encoder' % (prog.config, nm)
+        if not gaps:
+            rep.holds('R12.9', inst, f.where(), 'issued afresh before every CELT encode call in every feasible valuation')
+        elif r in reissued:
+            rep.holds('R12.9', inst, hf.where(), 're-issued by the OPUS_RESET_STATE handler (the encode at line %s can run without a fresh issue)' % gaps[0][3])
+        else:
+            rep.violated('R12.9', inst, '%s:%s' % (f.file, gaps[0][3]), 'with mode %d, redundancy %d, celt_to_silk %d the CELT encode at line %s runs without a fresh %s, and the reset handler does not re-issue it: after OPUS_RESET_STATE it uses '
+                         'the value left by the audio before the reset, a new encoder CELT\'s init value' % (gaps[0][0], gaps[0][1], gaps[0][2], gaps[0][3], nm), key='celt-internal-request:%d' % r)
+    return n
+
+
 def check(rep, prog, tier):
+    r12_9(rep, prog)
     r12_8(rep, prog)
     r12_1(rep, prog, tier)
     r12_2(rep, prog)
